@@ -53,6 +53,7 @@ fn main() {
             "--view" => { view = args[i + 1].clone(); i += 2; }
             "--out" => { out = args[i + 1].clone(); i += 2; }
             "--map" => { map = args[i + 1].clone(); i += 2; }
+            "--lenient" => { rewrite::LENIENT.store(true, std::sync::atomic::Ordering::Relaxed); i += 1; }
             other => die(&format!("unknown argument {}", other)),
         }
     }
